@@ -100,7 +100,11 @@ class Gen9:
         r = self.rng
         return [self.opt(lambda: r.choice(WORDS), 0.3), self.sub('mount', 'flags', 0, 2), self.opt(lambda: self.path(False), 0.8)]
 
-    k_remount = k_umount
+    def k_remount(self):
+        f = self.k_umount()
+        if self.rng.random() < 0.3:
+            f[1] = ['remount']          # what a log record with flags="remount" gives: the keyword's own flag, alone
+        return f
 
     def k_pivot_root(self):
         return [self.opt(lambda: self.path(False)), self.opt(lambda: self.path(False)), self.opt(self.name)]
